@@ -204,6 +204,15 @@ def callback_hook(an, st, fr, e, args):
             an.check_access(st, fr, e, a, Lin.const(1), "address handed to a callback")
 
 
+def span_hook(an, st, fr, e, args):
+    """VIEW: a span / view object built from an address in the storage and a count covers bytes of the storage only"""
+    T = fr.f.T(e.get("t"))
+    if "span" not in (T.get("name") or T.get("s") or ""):
+        return
+    if len(args) == 2 and isinstance(args[0], Ptr) and args[0].region is not None and isinstance(args[1], Lin):
+        an.check_access(st, fr, e, args[0], args[1], "view handed to the caller")
+
+
 def run_linbounds(prog, ctx=None):
     res = Result("LINBOUNDS")
     files = list(ctx.get("files", [])) if ctx else []
@@ -224,6 +233,7 @@ def run_linbounds(prog, ctx=None):
         # C++ wrappers, which only forward) is used through its contract: INV in, INV out
         an.policy = (lambda fr, g, cxx=cxx: "modular" if (cxx and g.file.endswith(".c")) or g.file not in fileset else "inline")
         an.indirect_hook = callback_hook
+        an.view_hook = span_hook
         spec = SPECS.get(f.name)
         copied_key = None
         if spec:
